@@ -115,6 +115,42 @@ theorem evaluator_countdown (n : Nat) (w : World) :
     ∃ (h : Nat) (s' : Store), Eval (alloc initStore (NatSemP.countdown n) ⟨[], []⟩) w (.frame initStore.cells.size) h
         (.ok (.arg (.strict (.int 0)))) s' w := by_name_program _ _ w (bn_countdown n)
 
+/-! ### C03 in the reference semantics: what is not needed does not matter -/
+
+/-- the branch a Boolean does not select is irrelevant: replacing it by *any* expression — one that raises, diverges or is
+ill-scoped — leaves the by-name value unchanged … -/
+theorem unselected_branch_irrelevant {ρ f x y sp v} (y' : AST) (hf : tagOf f = none) (hc : BN ρ f (.bool true))
+    (h : BN ρ (.call f [x, y] sp) v) : BN ρ (.call f [x, y'] sp) v := by
+  cases h with
+  | sel _ hc' hv => have := hc.deterministic hc'; cases this; exact BN.sel hf hc hv
+  | call _ hc' _ => have := hc.deterministic hc'; cases this
+  | eqInt _ _ _ => simp [tagOf] at hf
+  | addInt _ _ _ => simp [tagOf] at hf
+
+theorem unselected_branch_irrelevant' {ρ f x y sp v} (x' : AST) (hf : tagOf f = none) (hc : BN ρ f (.bool false))
+    (h : BN ρ (.call f [x, y] sp) v) : BN ρ (.call f [x', y] sp) v := by
+  cases h with
+  | sel _ hc' hv => have := hc.deterministic hc'; cases this; exact BN.sel hf hc hv
+  | call _ hc' _ => have := hc.deterministic hc'; cases this
+  | eqInt _ _ _ => simp [tagOf] at hf
+  | addInt _ _ _ => simp [tagOf] at hf
+
+/-- … and so does the evaluator's result (adequacy): the two closed programs evaluate to the same integer, whatever the
+unselected branch is -/
+theorem evaluator_ignores_unselected_branch (f x y y' : AST) (sp : Span) (n : Int) (w : World) (hf : tagOf f = none)
+    (hc : BN (.mk [] []) f (.bool true)) (h : BN (.mk [] []) (.call f [x, y] sp) (.int n)) :
+    ∃ (hh : Nat) (s' : Store), Eval (alloc initStore (.call f [x, y'] sp) ⟨[], []⟩) w (.frame initStore.cells.size) hh
+        (.ok (.arg (.strict (.int n)))) s' w :=
+  by_name_program _ _ w (unselected_branch_irrelevant y' hf hc h)
+
+/-- an argument a function never refers to is irrelevant: a call of a closure whose body has a by-name value in an
+environment that does not look at the argument tuple's contents — here the simplest instance, a body that is a literal -/
+theorem unused_argument_irrelevant {ρ f sp b ρd n spn} (args args' : List AST) (hf : tagOf f = none)
+    (hc : BN ρ f (.clo b ρd)) (hb : b = .lit n spn) (_h : BN ρ (.call f args sp) (.int n)) :
+    BN ρ (.call f args' sp) (.int n) := by
+  subst hb
+  exact BN.call hf hc BN.lit
+
 /-! ### the executable reference evaluator -/
 
 /-- whatever the executable by-name evaluator (`Model/ByNameEval.lean`, driver command `bn`) returns is a value of the
